@@ -25,10 +25,16 @@ def run(tier, seed):
         cases.append(Case('early_v%d_s%d_%d_a%d_e%d' % (vk, sk, sf, ak, ek), 'crypto', 'zzDKG_qual_participant_early', [vk, sk & ((1 << 64) - 1), sf, ak, False, 0, ek]))
     for c1, c2, dup in itertools.product(range(0, 5), range(0, 5), (False, True)):
         cases.append(Case('dealer_%d_%d_%d' % (c1, c2, dup), 'crypto', 'zzDKG_qual_dealer', [c1, c2, dup]))
+    # Joint-Feldman observer: complaints against one dealer from a participant that is itself disqualified as a dealer
+    for order in (0, 1, 2):
+        for nh in ((1, 2, 3) if thorough else (2,)):
+            for ans in (False, True):
+                cases.append(Case('jf_complaints_o%d_h%d_a%d' % (order, nh, int(ans)), 'crypto', 'zzC08_jf_complaints', [order, nh, ans]))
     return run_check('C08', cases, tier, seed, setup=dkgcommon.SETUP,
         functions=['(*feldmanVSSstate).receiveShare/receiveVerifVector/End', '(*feldmanVSSQualState).receiveShare/receiveVerifVector/receiveComplaint/receiveComplaintAnswer/setSharesTimeout/setComplaintsTimeout/buildAndBroadcastComplaint/End', 'C:Fr_star_read_bytes'],
         bounds={'plain Feldman VSS': 'n=3, t=1, non-dealer participant; every vector kind (9) x share kind (10) x both delivery orders, duplicates of either message',
                 'Feldman-VSS-Qual participant': 'n=4, t=2; vector kinds {omitted, 9 kinds} x share kinds {omitted, 10 kinds} x both orders; dealer answers (6 kinds) to this participant and to another complainer; honest complaint from another participant',
+                'Joint-Feldman observer': 'n=5, t=2: a Byzantine participant disqualified as a dealer (bad vector first / last / none) complains, with 2 honest participants, against another dealer who answers only the honest ones',
                 'dealer role': 'complaints from every pair of (in/out of range) origins, duplicates',
                 'outside': 'larger n, t; more than two complainers; the algebra behind "share matches vector" (uninterpreted; honest-dealing axioms listed); network assumptions'},
         assumptions=dkgcommon.ASSUME, trusted=dkgcommon.TRUSTED,
